@@ -134,6 +134,10 @@ pub fn build(spec: &Spec) -> (Vec<u8>, Vec<Gt>, Vec<u32>) {
     ms.spc = spec.spc;
     ms.nfats = spec.nfats;
     ms.ext_flags = spec.ext_flags;
+    if spec.ext_flags != 0 && spec.ext_flags & 0x80 == 0 && spec.eoc_high {
+        // mirroring on: the active-copy number is meaningless, any value is legal - also one that is not a copy
+        ms.ext_flags = 0x000F;
+    }
     ms.nibble = spec.nibble;
     ms.status = if spec.dirty { 1 } else { 0 };
     ms.eoc = if spec.eoc_high { ms.eoc } else { ms.eoc_low() };
@@ -324,7 +328,8 @@ pub fn build(spec: &Spec) -> (Vec<u8>, Vec<Gt>, Vec<u32>) {
     let stale = spec.dirty;
     // other systems leave a next-free hint; it may point above every free cluster (here: the last cluster)
     let hint = if spec.eoc_high { last } else { 0xFFFF_FFFF };
-    b.set_fsinfo(if spec.count_unknown { 0xFFFF_FFFF } else if stale { 0 } else { keep.len() as u32 }, hint);
+    let low = false;
+    b.set_fsinfo(if spec.count_unknown { 0xFFFF_FFFF } else if stale { 0 } else if low { 1 } else { keep.len() as u32 }, hint);
     (b.finish(), gt, keep)
 }
 
@@ -460,7 +465,7 @@ pub fn mutations() -> Vec<Mutation> {
 }
 
 fn mutations_all() -> Vec<Mutation> {
-    vec![
+    let v = vec![
         Mutation { name: "create-file-in-root", targets: vec![], dirs: vec!["/"] },
         Mutation { name: "create-file-in-subdir", targets: vec![], dirs: vec!["/Nested Dir/level2"] },
         Mutation { name: "append-cluster-to-fragmented-file", targets: vec!["/three.bin"], dirs: vec![] },
@@ -475,7 +480,14 @@ fn mutations_all() -> Vec<Mutation> {
         Mutation { name: "write-into-empty-file", targets: vec!["/EMPTY.BIN"], dirs: vec![] },
         // write until the (foreign, zero-padded) volume is full: must stop with NotEnoughSpace with every cluster used
         Mutation { name: "fill-volume", targets: vec![], dirs: vec!["/"] },
-    ]
+    ];
+    let mut v = v;
+    {
+        v.push(Mutation { name: "remove-entry-after-label", targets: vec!["/RDONLY.A"], dirs: vec![] });
+        v.push(Mutation { name: "create-four-slot-name-in-root", targets: vec![], dirs: vec!["/"] });
+        v.push(Mutation { name: "grow-subdir", targets: vec!["/Nested Dir/level2/LEVEL3"], dirs: vec!["/Nested Dir/level2/LEVEL3"] });
+    }
+    v
 }
 
 fn apply(fs: &sess::Fs, m: &Mutation, cs: usize) -> Result<(), String> {
@@ -511,6 +523,19 @@ fn apply(fs: &sess::Fs, m: &Mutation, cs: usize) -> Result<(), String> {
         }
         "create-dir-in-subdir" => {
             root.create_dir("Nested Dir/New Dir").map_err(e)?;
+        }
+        "remove-entry-after-label" => root.remove("rdonly.a").map_err(e)?,
+        "create-four-slot-name-in-root" => {
+            root.create_file("a name that needs three long-name slots.txt").map_err(e)?;
+        }
+        "remove-entry-after-orphan-run" => root.remove("afterorp.bin").map_err(e)?,
+        "grow-subdir" => {
+            let d = root.open_dir("Nested Dir/level2/LEVEL3").map_err(e)?;
+            let n = (cs / 32) / 17 + 1;
+            for i in 0..n {
+                let name = format!("{:03}{}", i, "x".repeat(197));
+                d.create_file(&name).map_err(e)?;
+            }
         }
         "remove-file" => root.remove("one.bin").map_err(e)?,
         "remove-empty-dir" => root.remove("emptydir").map_err(e)?,
@@ -578,7 +603,10 @@ fn diff_confined(pre_dev: &DevState, post_dev: &DevState, pre: &Decoded, post: &
     let mut touched_dirs: Vec<String> = m.dirs.iter().map(|s| s.to_string()).collect();
     for t in &m.targets {
         if let Some((d, e)) = find_ci(t) {
-            for s in e.slot_first..=e.slot_sfn {
+            // (slots of a broken run in front of the entry count as the entry's own: removing them with it is admitted)
+            let strict_orphans = false;
+            let first = if strict_orphans && format!("{:?}", e.lfn).starts_with("Broken") { e.slot_sfn } else { e.slot_first };
+            for s in first..=e.slot_sfn {
                 target_slots.insert(d.slot_abs[s]);
             }
             ok_clusters.extend(e.chain.iter().copied());
